@@ -169,7 +169,7 @@ def one_config(run, cls, kw, rng, idx):
   ks = kinks(cls, kw)
   # translator validation of the gradient graph against eager autodiff
   pts = qz.interesting_points([k + e for k in ks for e in (0.25, -0.25)], rng, n_random=12 if run.quick() else 30, scale=4.0)
-  pts = [p for p in pts if np.isfinite(p) and float(p) not in ks]
+  pts = [p for p in pts if np.isfinite(p) and all(abs(float(p) - k) > max(2.0 ** -100, abs(k) * 2.0 ** -20) for k in ks)]
   gf = gradfn(q)
   bad = []
   for v in pts:
@@ -190,7 +190,8 @@ def one_config(run, cls, kw, rng, idx):
     o.result = harness.solve.Result("unsat", {}, 0.0, "hash-consing")
     run.obls.append(o)
     return
-  dom = [qz.finite_normal(x)] + [ir.L("(not (fp.eq {0} %s))" % ir.fp_lit(k), x) for k in ks]
+  # kinks are excluded with a small neighbourhood: next to a kink the scaled input can be flushed / rounded onto it
+  dom = [qz.finite_normal(x)] + [ir.L("(fp.gt (fp.abs (fp.sub RNE {0} %s)) %s)" % (ir.fp_lit(k), ir.fp_lit(max(2.0 ** -100, abs(k) * 2.0 ** -20))), x) for k in ks]
   if auto:
     dom.append(qz.abs_lt(x, 2.0 ** 40))
     dom.append(ir.L("(or (fp.isZero {0}) (fp.geq (fp.abs {0}) %s))" % ir.fp_lit(2.0 ** -40), x))
@@ -256,7 +257,8 @@ def run(tier, seed):
   r.assumptions = ["gradient graphs are produced by TensorFlow autodiff from the real forward code and translated op by op "
                    "(ReluGrad, LeakyReluGrad, TanhGrad, Select, Minimum/Maximum gradients...)",
                    "Tanh kernel: contract stub shared between the gradient graph and the oracle term",
-                   "kinks (x = 0, clip edges) are excluded: the surrogate is not differentiable there"]
+                   "kinks (x = 0, clip edges) are excluded together with a neighbourhood of relative size 2^-20 (absolute 2^-100 at 0): the surrogate "
+                   "is not differentiable there and the scaled input may be flushed or rounded onto the kink"]
   for i, (cls, kw) in enumerate(cfgs):
     try:
       one_config(r, cls, kw, rng, i)
